@@ -29,7 +29,7 @@ from vsim.harness import Peer, swarm_selector
 from vsim.loop import run_async, wait_until
 from vsim.runner import Harness
 from vsim.sock import Delivery, SimNet, SimSocket
-from vsim.world import Deadlock, HarnessError, StepCap, Violation, World
+from vsim.world import Deadlock, HarnessError, Violation, World
 
 PROPERTY = "C20"
 LEVEL = "exploration"
